@@ -260,6 +260,54 @@ def store_file_end_to_end(d: bytes, pair: int, mid: int, sti: int, fail: bool) -
     return ok
 
 
+def part10_header_without_instance(ts):
+    """file meta group as some writers produce it: no MediaStorageSOPInstanceUID (0002,0003)"""
+    meta = pydicom.Dataset()
+    meta.MediaStorageSOPClassUID = CT
+    meta.TransferSyntaxUID = ts
+    meta.ImplementationClassUID = '1.2.3.4'
+    import io
+    from pydicom.filewriter import write_file_meta_info
+    from pydicom import filebase
+    buf = io.BytesIO()
+    buf.write(b'\0' * 128 + b'DICM')
+    write_file_meta_info(filebase.DicomFileLike(buf), meta, enforce_standard=False)
+    return buf.getvalue()
+
+
+@cond(bounds='store from a Part 10 *file whose file meta group lacks the SOP instance UID* (the sender then reads it from the '
+             'data set): a real data set (odd-length values, nested sequence) in implicit LE / explicit LE / explicit BE '
+             '(symbolic selector), maximum lengths of both sides symbolic from {16384, 46, 80}, message id from 3 values: '
+             'the handler receives exactly the data set octets of the file (not its meta group), tagged with the '
+             'instance UID of the data set', timeout=240)
+def store_file_meta_without_instance(tsi: int, pair: int, mi: int) -> bool:
+    """
+    pre: 0 <= tsi <= 2 and 0 <= pair < len(PAIRS()) and 0 <= mi <= 2
+    post: _
+    """
+    from vt import sim
+    tsi, pair, mi = pick(tsi, 0, 2), pick(pair, 0, len(PAIRS()) - 1), pick(mi, 0, 2)
+    with sim._no_tracing():
+        mu, mp = PAIRS()[pair]
+        mid = (0, 255, 65535)[mi]
+        ts = pydicom.uid.UID(TS_LIST[tsi])
+        data = dsutils.encode(sample_dataset(), ts.is_implicit_VR, ts.is_little_endian)
+        fs = FakeFS({'/in/y.dcm': part10_header_without_instance(ts) + data})
+        sopclass.open = fs.open
+        rae = object.__new__(applicationentity.AE)
+        applicationentity.AEBase.__init__(rae, TS_LIST, MS[mp])
+        pae = ProviderAE(0, False)
+        ua = UserAssoc(SenderAE(), pae, ts, MS[mu], MS[mp], rae.get_file)
+        ctx = asceprovider.PContextDef(3, pydicom.uid.UID(CT), ts)
+        status = sopclass.storage_scu(ua, ctx, '/in/y.dcm', mid)
+        ok = ua.whole and check_received(pae, data, ts) and int(status) == 0
+        sent = ua.sent()
+        ok = ok and len(sent) == 1 and sent[0].message_id == mid and sent[0].sop_instance == INSTANCE \
+            and sent[0].data == data
+    deep(ok and pair == 1)
+    return ok
+
+
 def sample_dataset():
     ds = pydicom.Dataset()
     ds.SOPClassUID = CT
